@@ -65,6 +65,9 @@ def run(ctx):
     ctx.rule('C02.R8', 'the plan applied is exactly the value reconcile() returned (no filtering between decision and apply)', floor=1)
     ctx.attempt(bs.every_success_records, ctx, 'C02.R7')
     ctx.attempt(bs.plan_is_reconcile_result, ctx, 'C02.R8')
+    ctx.rule('C02.R9', 'the two scans reconcile compares hold the fingerprint of the bytes on disk now: every value is fingerprint_path(<walked file>), never a remembered one', floor=2)
+    from rules import bisync as _b
+    ctx.attempt(_b.scan_is_content, ctx, F, 'C02.R9')
     fl = bs.afl
     cfg = fl.cfg
     copies = bs.copy_sites()
@@ -260,7 +263,11 @@ def archive_taint(ctx, bs):
     if not from_load:
         ctx.ok('C02.R5', 'run_bisync:entries', 'next archive is rebuilt without the loaded entries', term_loc(R, sb))
         return
-    # a retain over both live maps that dominates the save
+    # a retain over both live maps (= what reconcile got as its two scans) that dominates the save
+    scan_keys = {}
+    for rcb, rct in r.calls_to('reconcile::reconcile'):
+        for side in (0, 1):
+            scan_keys.setdefault(side, set()).update((x.kind, str(x.key), x.bb) for x in r.origins(rct['args'][side]) if x.kind == 'call')
     filt = False
     for cb, ct in r.calls(lambda c: c.endswith('::retain') or c.endswith('::extract_if')):
         tgt = r.origins(ct['args'][0], mut_calls=False)
@@ -274,11 +281,11 @@ def archive_taint(ctx, bs):
                 for s in R.blocks[bi]['stmts']:
                     if s['rv']['k'] == 'agg' and s['rv'].get('ak') == 'closure' and norm(s['rv']['def']) == c.key:
                         for o in s['rv']['ops']:
-                            for x in r.origins(o):
-                                if x.kind == 'call' and x.key == 'meta::discover_local_fingerprints':
-                                    ro = call_arg_origins(r, x.bb, 0)
-                                    caps.add(tuple(sorted(y.key for y in ro if y.kind == 'param')))
-            if {(1,), (2,)} <= caps and r.cfg.dominates(cb, sb):
+                            ok_ = {(x.kind, str(x.key), x.bb) for x in r.origins(o) if x.kind == 'call'}
+                            for side, keys in scan_keys.items():
+                                if ok_ and ok_ <= keys:
+                                    caps.add(side)
+            if {0, 1} <= caps and r.cfg.dominates(cb, sb):
                 filt = True
     ctx.check(filt, 'C02.R5', 'run_bisync:entries-unfiltered', 'loaded entries filtered by presence in a or b before save',
               'the next archive carries base entries for paths absent from both trees (no filter of the loaded entries over the two live scans): '
